@@ -535,15 +535,31 @@ fn judge(h: &History, out: &HistOut, expected: &BTreeMap<String, Result<String, 
     j
 }
 
-/// Runs tools/run_miri.sh or tools/run_tsan.sh and records the engine result.
-fn run_engine(run: &mut Run, name: &str, script: &str, filter: &str) {
+type EngineHandle = std::thread::JoinHandle<Result<std::process::Output, String>>;
+
+/// Starts tools/run_miri.sh or tools/run_tsan.sh in the background (they use their own target dirs).
+fn spawn_engine(script: &str, filter: &str, envs: Vec<(&'static str, String)>) -> EngineHandle {
     let path = vmon::evidence::verif_root().join("tools").join(script);
-    if !path.exists() {
-        run.engine(name, false, json!({"error": "script missing"}));
-        run.inconclusive(format!("{name}: {script} missing"));
-        return;
-    }
-    match std::process::Command::new(&path).arg(filter).output() {
+    let filter = filter.to_string();
+    std::thread::spawn(move || {
+        if !path.exists() {
+            return Err(format!("{} missing", path.display()));
+        }
+        let mut c = std::process::Command::new(&path);
+        c.arg(&filter);
+        for (k, v) in envs {
+            if std::env::var(k).is_err() {
+                c.env(k, v);
+            }
+        }
+        c.output().map_err(|e| e.to_string())
+    })
+}
+
+/// Records the one-line JSON result of an engine script: clean => non-trivial observation,
+/// report => violation, anything else (tool missing, build failure, timeout) => inconclusive.
+fn record_engine(run: &mut Run, name: &str, filter: &str, h: EngineHandle) {
+    match h.join().unwrap_or_else(|_| Err("engine thread panicked".into())) {
         Ok(o) => {
             let text = String::from_utf8_lossy(&o.stdout).to_string();
             let last = text.lines().rev().find(|l| l.trim_start().starts_with('{')).unwrap_or("{}");
@@ -551,19 +567,19 @@ fn run_engine(run: &mut Run, name: &str, script: &str, filter: &str) {
             let ran = v["ran"].as_bool().unwrap_or(false);
             let reports = v["reports"].as_u64().unwrap_or(0);
             run.engine(name, ran, v.clone());
-            if !ran {
-                run.inconclusive(format!("{name} engine did not run: {}", v));
-            } else if reports > 0 {
+            if reports > 0 {
                 let sig = format!("{name}|{}", v["first_report_sig"].as_str().unwrap_or("report"));
-                run.violation(&sig, &format!("{name} reported {} problem(s) on filter {filter}", reports), json!({"engine": name, "result": v, "log": v["log"]}));
+                run.violation(&sig, &format!("{name} reported {reports} problem(s) on workload filter {filter} (log {})", v["log"]), json!({"engine": name, "result": v}));
+            } else if !ran {
+                run.inconclusive(format!("{name} engine did not run ({filter}): {}", v["note"]));
             } else {
-                run.nontrivial(format!("engine|{name}|clean|{}", filter));
+                run.nontrivial(format!("engine|{name}|clean|{filter}"));
                 run.count(&format!("{name}_tests_passed"), v["passed"].as_u64().unwrap_or(0));
             }
         }
         Err(e) => {
-            run.engine(name, false, json!({"error": e.to_string()}));
-            run.inconclusive(format!("{name}: cannot start {script}: {e}"));
+            run.engine(name, false, json!({"error": e}));
+            run.inconclusive(format!("{name}: cannot run engine script: {e}"));
         }
     }
 }
@@ -618,7 +634,7 @@ fn main() {
     });
 
     // histories
-    let n_hist = run.tier.pick(200usize, 5000usize);
+    let n_hist = run.tier.pick(200usize, 3000usize);
     let mut rng = Rng::new(run.seed, "c24");
     let mut hists: Vec<History> = (0..n_hist).map(|i| gen_history(&mut rng, i as u64, &inp)).collect();
     if let Some(h) = replay_history.clone() {
@@ -665,6 +681,17 @@ fn main() {
     let probe_diff = (0..N_PROFILES).map(|p| exec(&OpK::Read(0), &make_ctx(p, None), &inp)).collect::<std::collections::BTreeSet<_>>().len();
     run.set("distinct_read_results_across_profiles", json!(probe_diff));
 
+    // sanitizer engines on the C-free build (vmon-miri crate) run beside the histories
+    let mut engines: Vec<(&'static str, &'static str, EngineHandle)> = Vec::new();
+    if std::env::var("VERIF_NO_ENGINES").is_err() && replay_history.is_none() {
+        if run.quick() {
+            engines.push(("miri", "c24_smoke", spawn_engine("run_miri.sh", "c24_smoke", vec![("VERIF_MIRI_SEEDS", "0..1".into()), ("VERIF_MIRI_TIMEOUT", "600".into())])));
+        } else {
+            engines.push(("miri", "c24", spawn_engine("run_miri.sh", "c24", vec![("VERIF_MIRI_SEEDS", "0..8".into())])));
+            engines.push(("tsan", "c24", spawn_engine("run_tsan.sh", "c24", vec![("VERIF_TSAN_REPEATS", "10".into())])));
+        }
+    }
+
     // concurrent histories; outer parallelism kept low because every history spawns its own threads
     let outer = (par::workers() / 4).max(1);
     let next = std::sync::atomic::AtomicUsize::new(0);
@@ -710,14 +737,8 @@ fn main() {
         std::process::exit(if v > 0 { 1 } else { 0 });
     }
 
-    // sanitizer engines on the C-free build (vmon-miri crate)
-    if std::env::var("VERIF_NO_ENGINES").is_err() {
-        if run.quick() {
-            run_engine(&mut run, "miri", "run_miri.sh", "c24_smoke");
-        } else {
-            run_engine(&mut run, "miri", "run_miri.sh", "c24");
-            run_engine(&mut run, "tsan", "run_tsan.sh", "c24");
-        }
+    for (name, filter, h) in engines {
+        record_engine(&mut run, name, filter, h);
     }
     run.finish(25);
 }
